@@ -43,7 +43,8 @@ func c01(r *ev.Run, replay string) {
 	var wg sync.WaitGroup
 	sem := make(chan struct{}, 16)
 	for _, sg := range gen.OrderSystems() {
-		for sh := 0; sh < shards; sh++ {
+		// The regular pools, then a third as many again for the integer edges.
+		for sh := 0; sh < shards+shards/3; sh++ {
 			wg.Add(1)
 			sem <- struct{}{}
 			go func(sg gen.SysGen, sh int) {
@@ -56,8 +57,8 @@ func c01(r *ev.Run, replay string) {
 				}()
 				rng := r.Rand(fmt.Sprintf("%s/%d", sg.Name, sh))
 				g := sg.Gen
-				if sh%6 == 5 {
-					// Every sixth pool is dominated by components at the
+				if sh >= shards && sh%2 == 1 {
+					// Half of the extra pools are dominated by components at the
 					// edges of the 32- and 64-bit integer ranges.
 					g = gen.Extreme(g)
 					r.Count("extreme_pools:"+sg.Name, 1)
@@ -70,7 +71,7 @@ func c01(r *ev.Run, replay string) {
 					return err == nil
 				}
 				var pool []string
-				if sh%6 == 4 {
+				if sh >= shards && sh%2 == 0 {
 					// Families that differ in one component only, that
 					// component running over 0, 1 and the integer edges.
 					pool = gen.ExtremeFamilies(rng, sg.Gen, n, accept)
